@@ -490,7 +490,16 @@ func (b *Builder) invoke(fn reflect.Value, name string, c *Call) []reflect.Value
 			// the items are handed over as the caller's own slice (items...), one with room to grow
 			spread = make([]jen.Code, 0, len(c.Items)-item+4)
 			for ; item < len(c.Items); item++ {
-				spread = append(spread, b.Code(c.Items[item]))
+				code := b.Code(c.Items[item])
+				if n := c.Items[item]; n != nil && n.Kind == KStmt && n.Ref == 0 && len(n.Calls) == 1 && n.Calls[0].Fn == "Qual" && len(n.Calls[0].Str) == 2 && !NoCloneForm {
+					// A caller may collect qualified identifiers on a Statement used as a plain list
+					// (l.Qual(p, "A"); l.Qual(p, "B")) and hand its elements on (Case(l...)): the items of the group
+					// are then the bare tokens, not statements holding them. One such item in three.
+					if st, ok := code.(*jen.Statement); ok && st != nil && len(*st) == 1 && (len(n.Calls[0].Str[0])+2*len(n.Calls[0].Str[1]))%3 == 0 {
+						code = (*st)[0]
+					}
+				}
+				spread = append(spread, code)
 			}
 			args = append(args, reflect.ValueOf(spread))
 		case variadic && pt.Elem().Kind() == reflect.Interface: // Commentf(format, a...)
